@@ -104,23 +104,20 @@ theorem addConn_fixpoint (dIn dOut : ℝ) (l : List (Elem ℝ)) (h : ∀ e ∈ l
     | fused u l => rfl
     | edfa u p => rfl
 
-/-- padding a padded span again changes nothing (first fibre without user `att_in`) -/
+/-- padding a padded span again changes nothing (with or without a user `att_in`) -/
 theorem padding_fixpoint (padding : ℝ) (r : List (Elem ℝ)) (u : String) (p : FiberP ℝ) (v : String) (q : FiberP ℝ)
-    (t : List (Elem ℝ)) (hr : r = .fiber v q :: t) (hl : r.getLast? = some (.fiber u p)) (hnr : p.raman = false)
-    (hq : runLoss r < padding → q.attIn = 0) :
+    (t : List (Elem ℝ)) (hr : r = .fiber v q :: t) (hl : r.getLast? = some (.fiber u p)) (hnr : p.raman = false) :
     padRun padding (padRun padding r) = padRun padding r :=
-  padRun_idempotent padding r u p v q t hr hl hnr hq
+  padRun_idempotent padding r u p v q t hr hl hnr
 
 /-! ### the amplifier recurrence re-derives the exported operating point -/
 
 /-- one amplifier: fed with its own exported settings (selected type_variety, gain, delta_p, out_voa, in_voa) and the
 same incoming net offset, `set_one_amplifier` returns the same operating point — provided the first design left
-the amplifier at or below p_max -/
+the amplifier at or below p_max (both modes) -/
 theorem ampStep_fixpoint (c : Cfg ℝ) (pref prefTotal pd pv pd' pv' : ℝ) (a : AmpIn ℝ)
     (hoff : pd' - pv' = pd - pv)
-    (hfitP : c.powerMode = true → prefTotal + (ampStep c pref prefTotal pd pv a).dpInt ≤ a.sel.pMax)
-    (hfitG : c.powerMode = false →
-      prefTotal + pd - a.nodeLoss - pv + (ampStep c pref prefTotal pd pv a).gain ≤ a.sel.pMax) :
+    (hfit : prefTotal + (ampStep c pref prefTotal pd pv a).dpInt ≤ a.sel.pMax) :
     SamePoint (ampStep c pref prefTotal pd pv a)
       (ampStep c pref prefTotal pd' pv' (reuseAmp a (ampStep c pref prefTotal pd pv a))) ∧
     (ampStep c pref prefTotal pd' pv' (reuseAmp a (ampStep c pref prefTotal pd pv a))).retDp
@@ -136,18 +133,16 @@ theorem ampStep_fixpoint (c : Cfg ℝ) (pref prefTotal pd pv pd' pv' : ℝ) (a :
   cases hm : c.powerMode with
   | true =>
     have hd := hdP hm
-    have hf := hfitP hm
     have key : SamePoint o (ampStep c pref prefTotal pd' pv' (reuseAmp a o)) ∧
         (ampStep c pref prefTotal pd' pv' (reuseAmp a o)).retDp = o.dpInt ∧
         (ampStep c pref prefTotal pd' pv' (reuseAmp a o)).retVoa = o.outVoa := by
       simp only [SamePoint, ampStep, computeTargets, powerReduction, reuseAmp, hm, hd, hvar, truthy_eq, pmin_eq,
-        Option.getD_some, Option.isNone_some, Bool.false_and, Bool.false_eq_true, if_false, if_true, Nat.cast_zero]
+        Option.getD_some, Option.isNone_some, Bool.false_and, Bool.false_eq_true, if_false, Nat.cast_zero]
       rw [min_eq_left (by linarith)]
       refine ⟨⟨?_, ?_, ?_, ?_, ?_⟩, ?_, ?_⟩ <;> first | (simp; done) | (simp; linarith)
     exact ⟨key.1, by rw [key.2.1, key.2.2]; linarith⟩
   | false =>
     have hd := hdG hm
-    have hf := hfitG hm
     have key : SamePoint o (ampStep c pref prefTotal pd' pv' (reuseAmp a o)) ∧
         (ampStep c pref prefTotal pd' pv' (reuseAmp a o)).retDp = o.dpInt ∧
         (ampStep c pref prefTotal pd' pv' (reuseAmp a o)).retVoa = o.outVoa := by
@@ -170,8 +165,8 @@ theorem redesign_fixpoint (c : Cfg ℝ) (pref prefTotal : ℝ) :
   | cons a rest ih =>
     intro pd pv pd' pv' hoff hfit oo hmem
     simp only [FitsAll] at hfit
-    obtain ⟨hP, hG, hrest⟩ := hfit
-    obtain ⟨hsame, hnext⟩ := ampStep_fixpoint c pref prefTotal pd pv pd' pv' a hoff hP hG
+    obtain ⟨hP, hrest⟩ := hfit
+    obtain ⟨hsame, hnext⟩ := ampStep_fixpoint c pref prefTotal pd pv pd' pv' a hoff hP
     simp only [redesignAmps, List.mem_cons] at hmem
     rcases hmem with h | h
     · subst h; exact hsame
